@@ -2,13 +2,33 @@
 from . import _func, _loss
 
 
+def extras(tier):
+    def gen(seed):
+        out = []
+        for lk in ("ode", "statio", "nonstatio"):
+            for net in ("pinn", "hyper"):
+                for pb in (False, True):
+                    for j in range(1 if tier == "quick" else 4):
+                        out.append(dict(kind="sysplain", lkind=lk, net=net, pbatch=pb, seed=10 * seed + j, src="sysplain"))
+        return out
+    return gen
+
+
+def sig(r):
+    if r.get("kind") == "sysplain":
+        return dict(kind="sysplain", lkind=r["lkind"], net=r["net"], pbatch=r["pbatch"], exc=(r.get("exc") or "").split(":")[0])
+    return _loss.sig(r)
+
+
 def run(tier, seed):
     q = tier == "quick"
     return _func.run(
-        "C13", tier, seed, emitters=[("MC_Loss", _loss.MC % ("C13", 8), "MC_Loss_C13")], extras=lambda s: [],
-        prepare=_loss.prepare(900 if q else 0), sig=_loss.sig,
+        "C13", tier, seed, emitters=[("MC_Loss", _loss.MC % ("C13", 8), "MC_Loss_C13")], extras=extras(tier),
+        prepare=_loss.prepare(900 if q else 0), sig=sig,
         rule="TLC enumerates ODE / stationary / non-stationary systems x 1..3 equations x 1..3 unknowns x key naming (equal, different, "
              "overlapping) x scalar / per-key dict weights x initial-condition and observation patterns per unknown (none, first, all) x "
              "boundary conditions x parameter batch; equations are asymmetric in t and x and involve every unknown; expected = "
-             "LossSemantics!SysTerms; the 1x1 system = plain loss is a lemma checked on the records; distinct = distinct structure",
+             "LossSemantics!SysTerms; the 1x1 system = plain loss is a lemma checked on the records; + the same clause on REAL networks (MLP PINN and "
+             "hyper-network PINN with float weights, ODE / stationary / non-stationary, with and without a parameter batch): the one-equation "
+             "one-unknown system and the plain loss built from the same pieces are compared with each other; distinct = distinct structure",
         assumptions=["polynomial one-output networks and polynomial equations (exact under x64); scalar weights per equation / unknown"])
